@@ -363,6 +363,12 @@ func genTemplDoc(r *rng, cols []colDesc, depth int) *jnode {
 	for i := r.intn(3); i > 0; i-- {
 		names = append(names, []string{"x", "y", "a", "w"}[r.intn(4)])
 	}
+	if len(cols) > 0 && r.intn(6) == 0 {
+		// an undeclared key that differs from a declared column by case only
+		if up := strings.ToUpper(cols[r.intn(len(cols))].name); findCol(cols, up) == nil {
+			names = append(names, up)
+		}
+	}
 	perm := r.perm(len(names))
 	used := map[string]bool{}
 	for _, pi := range perm {
@@ -386,6 +392,16 @@ func genTemplDoc(r *rng, cols []colDesc, depth int) *jnode {
 		}
 		n.keys = append(n.keys, k)
 		n.kids = append(n.kids, v)
+	}
+	if depth == 0 && len(n.keys) >= 2 && r.intn(8) == 0 {
+		// an undeclared key met twice: it keeps the place of its first appearance
+		for i, k := range n.keys {
+			if findCol(cols, k) == nil && i < len(n.keys)-1 {
+				n.keys = append(n.keys, k)
+				n.kids = append(n.kids, &jnode{kind: 'n', s: "7"})
+				break
+			}
+		}
 	}
 	return n
 }
@@ -1243,6 +1259,30 @@ func (c *templCtx) valueImportOracle() {
 	}
 }
 
+// C10 at column level, directed: after a line is accepted, the column of raw type T holds nil or a T — for every
+// format x raw type and a few values of every JSON kind (the empty string and the empty array among them)
+func (c *templCtx) typedAfterImport() {
+	vals := []string{`""`, `"AQ=="`, `"x"`, `"12"`, `0`, `1.5`, `true`, `null`, `[]`, `{}`, `"2021-09-24"`, `"2021-09-24T10:11:12Z"`, `1632478272`, `"\u0000"`}
+	for _, f := range allFormats {
+		for _, tn := range typeNames {
+			tpl := jsonline.NewTemplate().With("c", f, typeSample[tn])
+			for _, v := range vals {
+				line := `{"c":` + v + `}`
+				var row jsonline.Row
+				var err error
+				if p, _ := guard(func() { row, err = tpl.GetImporter(strings.NewReader(line)).ReadOne() }); p || err != nil || row == nil {
+					continue
+				}
+				c.rep.OracleChecks["C10"]++
+				if raw := row.GetOrNil("c"); raw != nil && reflect.TypeOf(raw) != reflect.TypeOf(typeSample[tn]) {
+					c.violate("C10", fmt.Sprintf("column %s(%s) holds a %T after a successful import", strings.ToLower(strings.TrimPrefix(gFormat(f), "F")), tn, raw),
+						map[string]interface{}{"stream": "template", "line": line})
+				}
+			}
+		}
+	}
+}
+
 // C11 at column level: a binary column mapped to a fixed-width type accepts exactly the payloads of that width and
 // re-emits exactly the bytes it accepted (every exponent / NaN payload class included); bool is the one-byte
 // normalising special case
@@ -1251,7 +1291,7 @@ func (c *templCtx) binaryColumnOracle() {
 		"int64": 8, "uint64": 8, "int": 8, "uint": 8, "float64": 8}
 	special := [][]byte{{}, {0}, {0xff}, {0, 0}, {0xff, 0x7f}, {0, 0, 0x80, 0x7f}, {1, 0, 0x80, 0x7f}, {0, 0, 0xc0, 0xff}, {0, 0, 0x80, 0xff}, {0, 0, 0, 0x80},
 		{0, 0, 0, 0, 0, 0, 0xf0, 0x7f}, {1, 0, 0, 0, 0, 0, 0xf0, 0x7f}, {0, 0, 0, 0, 0, 0, 0xf8, 0xff}, {0, 0, 0, 0, 0, 0, 0xf0, 0xff}, {0, 0, 0, 0, 0, 0, 0, 0x80},
-		{0xff, 0xff, 0xff, 0xff, 0xff, 0xff, 0xff, 0xff}, {0xff, 0xff, 0xff, 0xff}, {1, 2, 3}, {1, 2, 3, 4, 5}, {1, 2, 3, 4, 5, 6, 7, 8, 9}, []byte("true"), []byte("12345678")}
+		{0xff, 0xff, 0xff, 0xff, 0xff, 0xff, 0xff, 0xff}, {0xff, 0xff, 0xff, 0xff}, {1, 2, 3}, {1, 2, 3, 4, 5}, {1, 2, 3, 4, 5, 6, 7, 8, 9}, []byte("true"), []byte("12345678"), []byte("1.5"), []byte("42"), []byte("-2e+3"), []byte("7")}
 	for tn, w := range widths {
 		tpl := jsonline.NewTemplate().WithMappedBinary("c", typeSample[tn])
 		payloads := append([][]byte{}, special...)
@@ -1264,6 +1304,16 @@ func (c *templCtx) binaryColumnOracle() {
 				b[j] = byte(c.r.next())
 			}
 			payloads = append(payloads, b)
+		}
+		// a JSON number is not a payload of any fixed width (its digits, read as base64, decode to 0, 3 or 6 bytes at best)
+		for _, num := range []string{`12345678`, `1234`, `0`, `1.5`, `true`} {
+			line := `{"c":` + num + `}`
+			var err error
+			guard(func() { _, err = tpl.GetImporter(strings.NewReader(line)).ReadOne() })
+			c.rep.OracleChecks["C11"]++
+			if err == nil {
+				c.violate("C11", fmt.Sprintf("the JSON value %s is accepted as the payload of a binary column mapped to %s (%d bytes)", num, tn, w), map[string]interface{}{"stream": "template", "column": "binary(" + tn + ")", "line": line})
+			}
 		}
 		for _, pl := range payloads {
 			line := fmt.Sprintf(`{"c":%q}`, base64.StdEncoding.EncodeToString(pl))
@@ -1321,6 +1371,15 @@ func (c *templCtx) typedRoundTrips() {
 			tplGeneric := jsonline.NewTemplate().With("c", f, typeSample[t])
 			tplDedicated := jsonline.NewTemplate()
 			dedicatedColumn(tplDedicated, "c", f, typeSample[t])
+			// (a column may be named ""; the builders must declare it like any other)
+			if e := jsonline.NewTemplate(); true {
+				dedicatedColumn(e, "", f, typeSample[t])
+				c.rep.OracleChecks["C13"]++
+				if cell, ok := e.CreateRowEmpty().GetValue(""); !ok || cell == nil || cell.GetFormat() != f || reflect.TypeOf(cell.GetRawType()) != reflect.TypeOf(typeSample[t]) {
+					c.violate("C13", fmt.Sprintf("lossless: the builder dedicated to %s does not declare a column named \"\" with raw type %s (a value written under it cannot come back typed)", strings.ToLower(strings.TrimPrefix(gFormat(f), "F")), t),
+						map[string]interface{}{"stream": "template", "column": fmt.Sprintf("%s(%s)", strings.ToLower(strings.TrimPrefix(gFormat(f), "F")), t), "name": ""})
+				}
+			}
 			for vi, v := range valuesOfType(c.r, t) {
 				if !inLosslessDomain(f, t, v) {
 					continue
@@ -1531,7 +1590,7 @@ var sweepSized = func() []string {
 	return out
 }()
 
-var sweepMore = []string{`"\\u003c"`, `"a\\u0026b\\\\u003e"`, `"2021-09-24 "`, `" 2021-09-24"`, `"2021-09-24\t"`, `1e21`, `1.2345678901234568e+29`, `123456789012345678901234567890`, `18446744073709551615`, `9223372036854775808`, `"2023/02/03"`, `"2023.02.03"`, `"03/02/2023"`, `"2023-02-03Z"`, `"a\n\n"`, `"w\r\n\r\n"`, `"\n"`, `" x "`, `200000000000000`, `100000000000000`, `-200000000000000`, `253402300799`, `253402300800`, `253402250400`, `253402214400`, `-62167219200`, `-62167219201`, `-62167180000`, `-62167250000`, `"9999-12-31T23:30:00-01:00"`, `"0000-01-01T00:30:00+01:00"`, `1e400`, `-1E+999`, `1e-400`, `1632823189.5`, `1.6e9`, `0.0`, `"2021-9-4"`, `"2021-09-4"`, `"2021-9-04"`, `"21-09-24"`,
+var sweepMore = []string{`"\"\\\"x\\\"\""`, `"\"a\""`, `1566844858123456`, `1000000000000`, `999999999999`, `"\\u003c"`, `"a\\u0026b\\\\u003e"`, `"2021-09-24 "`, `" 2021-09-24"`, `"2021-09-24\t"`, `1e21`, `1.2345678901234568e+29`, `123456789012345678901234567890`, `18446744073709551615`, `9223372036854775808`, `"2023/02/03"`, `"2023.02.03"`, `"03/02/2023"`, `"2023-02-03Z"`, `"a\n\n"`, `"w\r\n\r\n"`, `"\n"`, `" x "`, `200000000000000`, `100000000000000`, `-200000000000000`, `253402300799`, `253402300800`, `253402250400`, `253402214400`, `-62167219200`, `-62167219201`, `-62167180000`, `-62167250000`, `"9999-12-31T23:30:00-01:00"`, `"0000-01-01T00:30:00+01:00"`, `1e400`, `-1E+999`, `1e-400`, `1632823189.5`, `1.6e9`, `0.0`, `"2021-9-4"`, `"2021-09-4"`, `"2021-9-04"`, `"21-09-24"`,
 	`"2021-09-24T10:11:12"`, `"2021-09-24 10:11:12Z"`, `"a\u0007b"`, `"\u000b"`, `"\u007f"`, `"\u0000"`, `"\ud83d\ude00"`, `"\u2028"`,
 	`[]`, `[1,"a",null]`, `{}`, `{"z":1,"a":2}`, `{"z":{"n":1,"b":[{"y":1,"x":2}]},"a":null,"m":"t"}`, `" 1"`, `"0x10"`, `"+5"`, `".5"`, `"5."`, `"007"`, `"NaN"`, `"Infinity"`,
 	`"1e400"`, `"QQ="`, `"QQ"`, `"Q Q=="`, `"////"`, `"-_-_"`}
@@ -1587,6 +1646,7 @@ func templateStream(seed uint64, tier string, outDir string, props map[string]bo
 	}
 	if props["C10"] || props["C17"] {
 		c.valueImportOracle()
+		c.typedAfterImport()
 	}
 	if props["C11"] {
 		c.binaryColumnOracle()
